@@ -18,6 +18,10 @@ FUNCS = ['frontends.tui.controller:Controller.list_command', 'frontends.tui.cont
 COUNT_RE = re.compile(r"^\((\d+) matched, (\d+) didn't(?:, (\d+) not checked)?\)$")
 
 
+def _verdict(m, msg):
+    return m.verdict(msg) if isinstance(m, ctl.SymLeaf) else bool(m.matches(msg))
+
+
 def listing(ctx, case):
     via, assign, sel = case[:3]
     rec_sel = case[3] if len(case) > 3 else None     # the connection selected WHILE the history was recorded
@@ -28,15 +32,24 @@ def listing(ctx, case):
     try:
         if rec_sel is not None:
             w.ctl.connection_command(w.conns[rec_sel].name())
+        from core import wl
+        # one message of the history is of a kind the connection-naming code looks at, in a form it chokes on: it is recorded like any other
+        naming = ctx.choose(['plain', 'title-empty', 'app-id-not-a-string', 'layer-surface-short'], 'naming_message') if assign else 'plain'
+        nm = {'plain': ('sync', ()), 'title-empty': ('set_title', (wl.Arg.String(''),)), 'app-id-not-a-string': ('set_app_id', (wl.Arg.Int(3),)),
+              'layer-surface-short': ('get_layer_surface', (wl.Arg.Int(1),))}[naming]
         for k, ci in enumerate(assign):
             # every other message of longer histories is on an object the connection could not resolve
             # odd-length histories share one time stamp (a burst): `oldest first` is the recording order, not the clock
-            ctl.add_message(w, ci, t=(7.5 if len(assign) % 2 == 1 else None), target_id=99 if (len(assign) >= 3 and k % 2 == 1) else 1)
+            ctl.add_message(w, ci, t=(7.5 if len(assign) % 2 == 1 else None), target_id=99 if (len(assign) >= 3 and k % 2 == 1) else 1,
+                            name=nm[0] if k == len(assign) // 2 else 'sync', args=nm[1] if k == len(assign) // 2 else ())
         if rec_sel is not None and sel is None:
             w.ctl.connection_command('all')
-        F = ctl.SymLeaf(ctx, 'filter')
+        # the matcher listed by (and the current filter): an abstract leaf with a solver-chosen verdict per message, or one of the two constants
+        # the parser really produces (`*`, the default filter, and `!`) - code may treat constants specially
+        const = ctx.choose(['leaf', 'always', 'never'], 'matcher_kind')
+        F = ctl.SymLeaf(ctx, 'filter') if const == 'leaf' else (matcher.always if const == 'always' else matcher.never)
         B = ctl.SymLeaf(ctx, 'break', always=False)
-        L = ctl.SymLeaf(ctx, 'listed')
+        L = ctl.SymLeaf(ctx, 'listed') if const == 'leaf' else (matcher.always if const == 'always' else matcher.never)
         w.ctl.display_matcher = F
         w.ctl.stop_matcher = B
         if sel is not None:
@@ -83,7 +96,7 @@ def listing(ctx, case):
         ctx.check('only recorded messages of the selected scope are shown, each at most once, oldest first',
                   all(t in tags for t in shown) and shown == sorted(set(shown)))
         # shown_i <=> v_i and (no cap or fewer than N matches among the later messages of the scope)
-        vs = [used.verdict(m) for m in scope]
+        vs = [_verdict(used, m) for m in scope]
         for i, m in enumerate(scope):
             later = vs[i + 1:]
             real = m.tag in shown
@@ -123,7 +136,7 @@ def listing(ctx, case):
             w.ctl.show_messages(w.ctl.current_connection, L, cap)
             shown2 = ctl.msg_lines(w.out.items[k0:])
             scope2 = [m for (m, ci) in w.msgs if sel2 is None or ci == sel2]
-            vs2 = [L.verdict(m) for m in scope2]
+            vs2 = [_verdict(L, m) for m in scope2]
             for i, m in enumerate(scope2):
                 later = vs2[i + 1:]
                 real = m.tag in shown2
